@@ -8,9 +8,13 @@ COMMON_ASSUME = [
     'x86-64 Linux, 64-bit size_t, IEEE-754 floats; library built through the repository CMakeLists with DEBUG assertions on',
 ]
 
-def decode_jobs(flavour):
+def rc_job(binary, flavour, gen, tier, success, size, shards=8, unit=1):
+    mult = 10 if tier == 'thorough' else 1
+    return Job(binary, flavour, ['--rc', gen], shards=shards, timeout=5400, rc=(success * mult, size), label='rapidcheck ' + gen, shrink_unit=unit)
+
+def decode_jobs(flavour, gens=('ast', 'deep')):
     def jobs(tier, seed):
-        return [Job('drv_decode', flavour, [], shards=NCPU, timeout=5400)]
+        return [Job('drv_decode', flavour, [], shards=NCPU, timeout=5400)] + [rc_job('drv_decode', flavour, g, tier, 5000, 80) for g in gens]
     return jobs
 
 SPECS = {}
@@ -38,26 +42,29 @@ SPECS['C05'] = dict(
     level_note='The reference classifier (DESIGN.md Appendix A) is trusted; where the property allows late detection the oracle admits both verdicts, so it cannot tell which of the two a change picks.')
 
 SPECS['C14'] = dict(
-    jobs=decode_jobs('asan'), level='exploration', technique='metamorphic relation load(x||y) == load(x) over enumerated x and y; sequence splitting',
+    jobs=decode_jobs('asan', gens=('pair',)), level='exploration', technique='metamorphic relation load(x||y) == load(x) over enumerated x and y; sequence splitting',
     rule='PAIR: x = every E2 item (<=2 nodes quick, <=3 thorough) and every E2p item, decoded alone in an exactly |x|-byte block and again followed by y in {each of the 256 bytes, 14 small items, garbage, a 2^64-1 string head}; trees (observed via getters) and read must agree. SEQ: concatenations of 2..6 items split by repeated cbor_load at offset += read must give the same trees as the items alone and end exactly at the buffer end. Non-trivial = y non-empty and |x|>=2 (PAIR) / >=2 items (SEQ).',
     assumptions=COMMON_ASSUME[:1] + COMMON_ASSUME[2:],
     level_text='Exploration by a metamorphic relation (no reference model needed): complete over the enumerated x and the listed y; sequences are sampled.',
     level_note='x ranges over enumerated well-formed items only; y over single bytes, small items and a few garbage strings, not all strings.')
 
-def stream_jobs(tier, seed):
-    return [Job('drv_stream', 'asan', [], shards=NCPU, timeout=5400)]
+def stream_jobs_for(gens):
+    def jobs(tier, seed):
+        return [Job('drv_stream', 'asan', [], shards=NCPU, timeout=5400)] + [rc_job('drv_stream', 'asan', g, tier, 8000, 80) for g in gens]
+    return jobs
+stream_jobs = stream_jobs_for(())
 
 STREAM_ASSUME = [COMMON_ASSUME[0], 'the reference tokeniser (src/ref/refcbor.hpp read_head/tokenise, written from RFC 8949 sect. 3 and the profile) is correct', COMMON_ASSUME[2]]
 
 SPECS['C08'] = dict(
-    jobs=stream_jobs, level='exploration', technique='exhaustive/boundary enumeration of heads x buffer lengths against a reference tokeniser, with a recording callback table',
+    jobs=stream_jobs_for(('head',)), level='exploration', technique='exhaustive/boundary enumeration of heads x buffer lengths against a reference tokeniser, with a recording callback table',
     rule='HEAD campaign: every initial byte (256) x every buffer length 0..head length+1 x argument values (all one- and two-byte arguments exhaustively; boundary and seeded values for four/eight-byte ones incl. declared lengths up to 2^64-1); definite strings also with payload one short/exact/one extra. Oracle per call: FINISHED with exactly one callback (right slot, arguments, payload pointer = buffer+head, inside the buffer) and read = head(+payload) length; or NEDATA with no callback, read 0, n < required <= pending length (128-bit); or ERROR with no callback, read 0 for reserved/unsupported bytes; zero allocator calls; identical result when repeated and after unrelated calls; FINISHED independent of bytes beyond read (exact-size prefix, and flipped suffix). Non-trivial = buffer of >=1 byte whose head takes an argument or payload; distinct by buffer bytes.',
     assumptions=STREAM_ASSUME,
     level_text='Exploration: exhaustive per initial byte for immediate, one- and two-byte arguments; boundary grid plus seeded values for wider arguments.',
     level_note='Trusts the reference tokeniser; "allocates nothing" is observed through the installed allocator (libc bypass is the business of C13).')
 
 SPECS['C09'] = dict(
-    jobs=stream_jobs, level='exploration', technique='model-based testing of the buffering client loop: event sequence vs. independent tokenisation over generated (stream, fragmentation) pairs',
+    jobs=stream_jobs_for(('frag',)), level='exploration', technique='model-based testing of the buffering client loop: event sequence vs. independent tokenisation over generated (stream, fragmentation) pairs',
     rule='FRAG campaign: streams = concatenations of 1..4 enumerated items, raw sequences of 1..6 random heads, and specials (huge declared lengths, reserved bytes, truncated tails); fragmentations = one-shot, every single cut point, byte-at-a-time, 8 seeded multi-cut lists per stream. The client of the property statement is simulated (each call on an exactly-sized copy of the buffered bytes). Oracle: events equal the reference tokenisation (slot, arguments, payload bytes, order); every wait has buffered < required <= what the pending item occupies; progress on FINISHED; final state consistent with the tokenisation (all delivered / ERROR at the reserved byte / waiting on the incomplete tail). Non-trivial = some cut strictly inside a head or payload; distinct by (stream, cuts).',
     assumptions=STREAM_ASSUME,
     level_text='Exploration: all single cuts and byte-wise delivery of each generated stream, sampled multi-cut fragmentations; streams are sampled.',
@@ -71,7 +78,7 @@ SPECS['C10'] = dict(
     level_note='cbor_encode_half is judged only on NaN and half-representable floats (its documented domain for exactness; totality on other floats is C15).')
 
 def tree_jobs(tier, seed):
-    return [Job('drv_tree', 'asan', [], shards=NCPU, timeout=5400)]
+    return [Job('drv_tree', 'asan', [], shards=NCPU, timeout=5400), rc_job('drv_tree', 'asan', 'prog', tier, 4000, 80), rc_job('drv_tree', 'asan', 'astok', tier, 4000, 80, shards=4)]
 
 TREE_ASSUME = [COMMON_ASSUME[0], 'the reference encoder (src/ref/refcbor.hpp encode, written from RFC 8949 and the rules stated in C03) is correct', COMMON_ASSUME[2],
                'UBSan nonnull-attribute is disabled in this flavour: memcpy(dst, NULL, 0) on handle-less definite strings is outside every listed property']
@@ -108,7 +115,7 @@ SPECS['C06'] = dict(
     level_note='Atomicity is judged on the byte image of every block live before the call, so it needs no knowledge of struct layout; scenarios with more than a few hundred requests are only sampled (thorough tier).')
 
 def hist_jobs(tier, seed):
-    return [Job('drv_hist', 'asan', [], shards=NCPU, timeout=5400)]
+    return [Job('drv_hist', 'asan', [], shards=NCPU, timeout=5400, shrink_unit=4), rc_job('drv_hist', 'asan', 'hist', tier, 3000, 80, unit=4)]
 
 HIST_ASSUME = [COMMON_ASSUME[0], COMMON_ASSUME[2],
                'the ownership rules modelled are the documented ones (DESIGN.md Appendix B): containers hold one reference per slot; cbor_tag_set_item on an occupied tag leaves the old reference with the client; cbor_move gives a client reference to the callee; undefined uses (cycles, tag_item on an empty tag, double set_handle) are never generated']
@@ -146,8 +153,11 @@ SPECS['C15'] = dict(
     level_text='Exploration: halves exhaustive in both tiers, singles exhaustive in the thorough tier, doubles on a dense boundary grid plus seeded patterns.',
     level_note='The thorough exhaustive single sweep runs on an optimised build without sanitizers; the sanitizer build covers the strided sweep.')
 
+def scalar_jobs16(tier, seed):
+    return scalar_jobs(tier, seed) + [rc_job('drv_scalar', 'asan', 'utf8', tier, 10000, 60, shards=4)]
+
 SPECS['C16'] = dict(
-    jobs=scalar_jobs, level='exploration', technique='exhaustive short byte sequences + structured fault injection, compared with an independent RFC 3629 range-table validator',
+    jobs=scalar_jobs16, level='exploration', technique='exhaustive short byte sequences + structured fault injection, compared with an independent RFC 3629 range-table validator',
     rule='UTF8: every byte sequence of length 0..3 (thorough 0..4). UTF8F: 1..6 scalars from every length class and boundary separated by ASCII runs of 0..40 bytes with one injected fault (stray continuation, C0/C1/F5..FF, overlong 2/3/4-byte, surrogate, > U+10FFFF, truncation, dropped continuation, ASCII run inside a multi-byte sequence, arbitrary byte) or none. Each sequence is attached with cbor_build_stringn (and copied), cbor_new_definite_string + cbor_string_set_handle (fresh item, and re-attached to an item that held valid text), cbor_build_string (NUL-free), and decoded by cbor_load with the shortest and the next wider head and as a chunk. Oracle: cbor_string_codepoint_count == scalar count if valid per the reference validator else 0; length and bytes unchanged; cbor_load never rejects because of content. Non-trivial = sequence containing a byte >= 0x80; distinct by bytes.',
     assumptions=[COMMON_ASSUME[0], 'the reference validator (range tables of RFC 3629 sect. 4 in src/ref/refcbor.hpp) is correct', COMMON_ASSUME[2]],
     level_text='Exploration: exhaustive over all sequences up to 3 (4) bytes, which covers every lead/continuation combination; longer strings by structured sampling.',
